@@ -678,3 +678,37 @@ def cd5(F, R):
         g1 = guarded(fn, b, not_space)[0]
         g2 = guarded(fn, b, lambda g: g.kind == "bool" and g.term[0] == "cmp" and g.term[1] == "Eq" and g.truth is True and has_sub(g.term[2], item("0")) and g.term[3][:2] == ("c", 8))[0]
         R.require(g1 and g2 and all(cb in fn.reach_after(b, cut_blocks=[h]) for cb, _ in chars), fn, "dot-at-8", "the '.' must be written before the first printed extension byte (index 8) and nowhere else", fn.loc(b))
+
+
+@rule("SK3", ["C01", "C03"], floor=3,
+      doc="cursor re-anchoring in VolumeManager::write: the only stores into the open file's cluster cursor are (a) the rewind to (0, entry.cluster), taken exactly when the cursor's cluster is smaller than the file's first cluster (a file that has just received its first cluster, cursor still at 0), placed after the first-cluster allocation and before the first lookup, and (b) the write-back of the cursor that find_data_on_disk advanced, after the data block has been written")
+def sk3(F, R):
+    fn = F.fn(VM + "::write")
+    stores = [(b, i, fn.term_of_rvalue(s["rv"], b)) for b, i, s in fn.stmts()
+              if s["k"] == "Assign" and s["p"]["proj"] and s["p"]["proj"][-1][0] == "field" and s["p"]["proj"][-1][2] == "current_cluster"]
+    is_entry_cluster = lambda t: (lambda x: x[0] == "place" and tuple(e for e in x[2] if isinstance(e, str))[-2:] == ("entry", "cluster"))(strip_refs(t))
+    rew = [(b, i, v) for (b, i, v) in stores if v[0] == "agg" and len(v[3]) == 2 and v[3][0][:2] == ("c", 0) and is_entry_cluster(v[3][1])]
+    wbk = [(b, i, v) for (b, i, v) in stores if strip_refs(v)[0] == "var"]
+    R.require(len(rew) == 1 and len(wbk) == 1 and len(stores) == 2, fn, "cursor-stores", "expected exactly the rewind (0, entry.cluster) and the write-back of the advanced cursor, found %s" % [tstr(v)[-60:] for (_, _, v) in stores], fn.loc(0))
+    fdd = [b for b, t in fn.calls() if call_matches(t, ("find_data_on_disk",))]
+    allocs = [b for b, t in fn.calls() if call_matches(t, ("FatVolume::alloc_cluster",)) and strip_refs(fn.term_of_operand(t["args"][2], b))[2].endswith("Option::None")]
+    for (b, i, v) in rew:
+        def lt(g):
+            if not (g.kind == "bool" and g.truth is True and g.term[0] == "cmp" and g.term[1] == "Lt"):
+                return False
+            a, z = strip_refs(g.term[2]), strip_refs(g.term[3])
+            return a[0] == "place" and tuple(e for e in a[2] if isinstance(e, str))[-2:] == ("current_cluster", "1") and is_entry_cluster(z)
+        def gt(g):
+            if not (g.kind == "bool" and g.truth is True and g.term[0] == "cmp" and g.term[1] == "Gt"):
+                return False
+            a, z = strip_refs(g.term[2]), strip_refs(g.term[3])
+            return is_entry_cluster(a) and z[0] == "place" and tuple(e for e in z[2] if isinstance(e, str))[-2:] == ("current_cluster", "1")
+        R.require(guarded(fn, b, lt)[0] or guarded(fn, b, gt)[0], fn, "rewind-when-behind", "the rewind must be taken exactly when cursor.1 < entry.cluster", fn.loc(b, i))
+        # every way to the lookups passes the cursor test (either answer)
+        R.require(all(fn.unreachable_without(f, [(gb, gi) for (gb, gi, g) in all_guards(fn) if (lt(g) or gt(g))] + [(gb, gi) for (gb, gi, g) in all_guards(fn) if g.kind == "bool" and g.truth is False and g.term[0] == "cmp" and "current_cluster" in tstr(g.term)]) for f in fdd), fn, "rewind-before-lookup", "find_data_on_disk is reachable without the cursor test", fn.loc(b, i))
+        R.require(all(b in fn.reach_after(a) for a in allocs) and all(f in fn.reach_after(b) for f in fdd), fn, "rewind-position", "the rewind must lie after the first-cluster allocation and before the lookups", fn.loc(b, i))
+    for (b, i, v) in wbk:
+        var = strip_refs(v)[1]
+        okv = any(strip_refs(fn.term_of_operand(t["args"][2], bb)) == ("var", var, fn.local_name(var)) or has_sub(fn.term_of_operand(t["args"][2], bb), lambda q: q[:2] == ("var", var)) for bb, t in fn.calls() if call_matches(t, ("find_data_on_disk",)))
+        wb = [bb for bb, t in fn.calls() if call_matches(t, ("BlockCache::write_back",))]
+        R.require(okv and any(b in fn.reach_after(x) for x in wb) and guarded(fn, b, g_try_ok("BlockCache::write_back"))[0], fn, "cursor-write-back", "the cursor stored back must be the one find_data_on_disk advanced, after the block write succeeded", fn.loc(b, i))
